@@ -6,6 +6,14 @@ case lines written by harness/c15_wrap.c (line protocol documented there).
 same constants the theorems of `XmpProps.C15` are instantiated with. -/
 open Xmp Xmp.Wrap
 
+def fieldT (path : String) : CInt :=
+  match Xmp.Gen.DataWriters.indexFields.find? (fun f => f.1 == path) with
+  | some f => ⟨f.2.2.1, f.2.2.2⟩
+  | none => ⟨0, false⟩
+
+/-- the declared C types of `xc->invloop.count/pos` in the working tree -/
+def widths : InvWidths := { count := fieldT "channel_data.invloop.count", pos := fieldT "channel_data.invloop.pos" }
+
 def consts : Consts := { prologue := Xmp.Gen.DataWriters.loopPrologue, epilogue := Xmp.Gen.DataWriters.loopEpilogue }
 
 def parseElems (s : String) : List Nat :=
@@ -121,7 +129,7 @@ partial def loop (h : IO.FS.Stream) (s : S) : IO Unit := do
     let tbl := Xmp.Gen.DataWriters.invloopTable
     -- third alternative: the player reset the channel (position change, module restart) earlier in this tick
     let st0 : InvState := { st with count := 0, pos := 0 }
-    IO.println s!"m_inv {sh (invloopStep tbl false st x)} {sh (invloopStep tbl true st x)} {sh (invloopStep tbl false st0 x)} coh={bi cv.coherent}"
+    IO.println s!"m_inv {sh (invloopStepW widths tbl false st x)} {sh (invloopStepW widths tbl true st x)} {sh (invloopStepW widths tbl false st0 x)} coh={bi cv.coherent}"
     loop h s
   | "vend" :: ismod :: lp :: slp :: lb :: sb :: lf :: len :: lps :: lpe :: sus :: sue :: rel :: sl :: _ =>
     let x : SmpInfo := { loop := b lp, sloop := b slp, loopBidir := b lb, sloopBidir := b sb, loopFull := b lf,
